@@ -90,7 +90,7 @@ CONFIG = dict(
                    # exact boundaries (corpus/C19/seed-boundaries.case guarantees them in every run)
                    "asn-0", "asn-65535", "asn-65536", "asn-max", "dist-max", "ts-max",
                    "tlv-0", "tlv-255", "tlv-256", "tlv-65535", "tlv-over",
-                   "mask-0", "mask-part", "mask-octet", "mask-full", "mask-over", "adata-255", "adata-256",
+                   "mask-0", "mask-part", "mask-octet", "mask-full", "adata-255", "adata-256",
                    "peers-65535+", "ents-65535+", "pre", "post",
                    "sess-none", "sess-hold", "sess-fsm", "sess-admin", "sess-io", "sess-remote", "sess-local",
                    "fmsgs-0", "fmsgs-2", "fmsgs-4", "dpeers-0", "dpeers-1", "dpeers-2", "dpeers-4", "dchg4-0", "dchg4-3",
